@@ -939,11 +939,27 @@ fn subst(path: &str) -> String {
 /// evaluate one (history, version set); returns (sig, detail) per violation
 fn eval_version(h: &Hist, all: &[MatrixVersion], mask: u32, t: &mut Tally) -> Vec<(String, String)> {
     let set: Vec<usize> = (0..all.len()).filter(|i| mask & (1 << i) != 0).collect();
+    let mut out = eval_version_in_order(h, all, &set, "", t);
+    // the supported versions are a set: the order in which the caller lists them must not matter
+    if set.len() >= 2 {
+        let mut desc = set.clone();
+        desc.reverse();
+        out.extend(eval_version_in_order(h, all, &desc, "/listed-newest-first", t));
+    }
+    if set.len() >= 3 {
+        let mut rot = set.clone();
+        rot.rotate_left(1);
+        out.extend(eval_version_in_order(h, all, &rot, "/listed-newest-in-the-middle", t));
+    }
+    out
+}
+
+fn eval_version_in_order(h: &Hist, all: &[MatrixVersion], set: &[usize], order: &str, t: &mut Tally) -> Vec<(String, String)> {
     let versions: Vec<MatrixVersion> = set.iter().map(|i| all[*i]).collect();
     let n_args = h.meta.history.all_paths().next().map_or(0, |p| p.split('/').filter(|s| s.starts_with(':')).count());
     let arg_strings: Vec<String> = (0..n_args).map(|i| format!("x{i}")).collect();
     let args: Vec<&dyn Display> = arg_strings.iter().map(|s| s as &dyn Display).collect();
-    let exp = ref_select(h, &set);
+    let exp = ref_select(h, set);
     let mut out = vec![];
     t.transitions += 2;
     let got = catch(|| h.meta.make_endpoint_url(&versions, BASE, &args, ""));
@@ -956,7 +972,7 @@ fn eval_version(h: &Hist, all: &[MatrixVersion], mask: u32, t: &mut Tally) -> Ve
     };
     let got = match got {
         Err(p) => {
-            out.push((format!("version/{}/{}/panic", h.kind, hist_shape(h)), format!("{}: {}", describe(), p.text)));
+            out.push((format!("version/{}/{}/panic{order}", h.kind, hist_shape(h)), format!("{}: {}", describe(), p.text)));
             return out;
         }
         Ok(g) => g,
@@ -996,13 +1012,13 @@ fn eval_version(h: &Hist, all: &[MatrixVersion], mask: u32, t: &mut Tally) -> Ve
     t.nontrivial += 1;
     if got_kind != exp_kind {
         out.push((
-            format!("version/{}/{}/expected-{exp_kind}/got-{got_kind}", h.kind, hist_shape(h)),
+            format!("version/{}/{}/expected-{exp_kind}/got-{got_kind}{order}", h.kind, hist_shape(h)),
             format!("{}: expected {exp:?}, make_endpoint_url returned {got:?}", describe()),
         ));
     }
     // the public decision function must tell the same story
     match decision {
-        Err(p) => out.push((format!("version/{}/{}/decision-panic", h.kind, hist_shape(h)), p.text)),
+        Err(p) => out.push((format!("version/{}/{}/decision-panic{order}", h.kind, hist_shape(h)), p.text)),
         Ok(d) => {
             let ge_any = |r: Option<usize>| r.is_some_and(|r| set.iter().any(|v| *v >= r));
             let ge_all = |r: Option<usize>| r.is_some_and(|r| set.iter().all(|v| *v >= r));
@@ -1017,7 +1033,7 @@ fn eval_version(h: &Hist, all: &[MatrixVersion], mask: u32, t: &mut Tally) -> Ve
             };
             if d != exp_d {
                 out.push((
-                    format!("version/{}/{}/decision/expected-{exp_kind}", h.kind, hist_shape(h)),
+                    format!("version/{}/{}/decision/expected-{exp_kind}{order}", h.kind, hist_shape(h)),
                     format!("{}: versioning_decision_for = {d:?}, expected {exp_d:?}", describe()),
                 ));
             }
@@ -1395,7 +1411,7 @@ fn main() {
          fields cycle through all values of <= 1 symbol (endpoints with > 3 fields: 3 representatives per field){pairs}; each case: try_into_http_request -> segment-wise routing + percent-decoding -> \
          try_from_http_request -> equal value -> re-encode -> identical (method, URI, headers, body); likewise responses. \
          (b) {nreal} real request/response types (client, federation, appservice, identity, push gateway), path / free parameters over the \
-         same alphabet and bound. (c) every subset of the {nv} MatrixVersion variants (2^{nv}) x the history of every endpoint of the five \
+         same alphabet and bound. (c) every subset of the {nv} MatrixVersion variants (2^{nv}), listed oldest-first, newest-first and rotated, x the history of every endpoint of the five \
          API crates ({nmeta} METADATA consts) x synthetic histories (<= 2 unstable paths, stable paths at <= 3 of 5 versions, deprecated / \
          removed at every legal position{ladder}): make_endpoint_url and versioning_decision_for vs the reference selection. \
          (d) authorization header: 6 schemes x 4 SendAccessToken kinds x every token of <= 2 symbols (+ control characters); \
